@@ -105,6 +105,17 @@ def check_C15(tier, seed):
               ["Prop_C06", "Prop_C05"], "C15", probe_alias=True)
     from .checks_ctor import run_inputs
     run_inputs(out, "C15", tier)
+    # operands of every arithmetic form (incl. minimum / maximum / ** / reflected forms, which the workspace model does not have):
+    # the single-operation vectors of MC_ArrayOps, of which only the "operand changed by the call" findings count here
+    from . import replay_arrays
+    m = Model("MC_ArrayOps.tla", {"Pattern": "P222", "Family": "arith", "MaxDims": 2 if tier == "quick" else 3, "Seeds": {0}, "Emit": True},
+              invariants=["EmitInv"], workers=2, label="MC_ArrayOps/arith/P222 (operand snapshots)")
+    for mm, res in core.run_models([m], seed=out.seed, parallel=1):
+        out.add_tlc(mm, res)
+        bad = core.replay_parallel(replay_arrays.run_vector, res.vectors)
+        out.replayed += len(res.vectors)
+        bad = [(v, ["{C15} " + p for p in probs if "changed by the call" in p]) for v, p0 in [(v, probs) for v, probs in bad] for probs in [p0]]
+        out.judge([(v, p) for v, p in bad if p], "arrayops_operands", lambda v, p: {"engine": "arrayops_operands", "op": v["cfg"]["op"]})
     from .checks_traces import run_traces
     run_traces(out, "C15", tier)
     out.assumptions += [
